@@ -188,8 +188,17 @@ def lean_stage(seed, tier):
         thms = property_theorems()
         res["theorems"] = thms
         axioms = {}
-        ok_mods = [pid for pid in thms if f"EnumToolsModel.Thm.{pid}" not in failed]
-        if ok_mods and not any(f.startswith("EnumToolsModel.") and not f.startswith("EnumToolsModel.Thm") and not f.startswith("EnumToolsModel.Generated") for f in failed):
+        if p.returncode == 0:
+            ok_mods = list(thms)
+        else:
+            # which property modules still build (a module can be unbuildable because something it imports failed)
+            ok_mods = []
+            for pid in thms:
+                q = subprocess.run(["lake", "build", f"EnumToolsModel.Thm.{pid}"], cwd=LEAN_DIR, capture_output=True, text=True)
+                if q.returncode == 0:
+                    ok_mods.append(pid)
+        res["thm_modules_built"] = ok_mods
+        if ok_mods:
             audit = "\n".join(f"import EnumToolsModel.Thm.{pid}" for pid in ok_mods) + "\n"
             for pid in ok_mods:
                 for t in thms[pid]:
